@@ -2,6 +2,7 @@
    (real state before, operation, real result code, real state after).  Search support for locating a
    concrete failing input when a proof obligation or the correspondence breaks; never a proof. *)
 From MelVerif Require Export Cases.StfLib.
+From MelVerif Require Import STF.Proofs.Supply STF.Proofs.BatchSupply STF.Proofs.StdCovenant.
 Open Scope N_scope.
 
 (* ---------------------------------------------------------------- supply (C01) *)
@@ -35,8 +36,7 @@ Definition pool_sides (code : N) : option (denom * denom) :=
        | None => None
        end.
 
-Definition coin_supply (d : denom) (coins : gmap N cdh) : N :=
-  map_fold (fun _ c acc => if denom_eqb (cd_denom (c_data c)) d then acc + cd_value (c_data c) else acc) 0 coins.
+(* [coin_supply] is the definition the theorems are stated with (STF/Proofs/Supply.v) *)
 Definition pool_supply (d : denom) (pools : gmap N pool) : N :=
   map_fold (fun k p acc =>
     match pool_sides k with
@@ -55,17 +55,7 @@ Definition state_denoms (s : wstate) (acc : list denom) : list denom :=
 Definition tx_denoms (txs : list tx) (acc : list denom) : list denom :=
   fold_left (fun acc t => fold_left (fun acc o => add_denom (fix_denom t (cd_denom o)) acc) (t_outputs t) acc) txs acc.
 
-(* explicit issuance rules for a batch *)
-Definition batch_issuance (d : denom) (txs : list tx) : N :=
-  fold_left (fun acc t =>
-    fold_left (fun acc o =>
-      let dd := fix_denom t (cd_denom o) in
-      if denom_eqb dd d &&
-         (txkind_eqb (t_kind t) KFaucet
-          || (match cd_denom o with NewCustom => true | _ => false end)
-          || (txkind_eqb (t_kind t) KDoscMint && denom_eqb d Erg))
-      then acc + cd_value o else acc) (t_outputs t)
-      (if txkind_eqb (t_kind t) KFaucet && denom_eqb d Mel then acc + t_fee t else acc)) txs 0.
+(* the explicit issuance of a batch is [batch_issuance] of STF/Proofs/BatchSupply.v, the one C01_batch_supply is stated with *)
 
 (* explicit issuance at seal, computed with the model from the real pre-state: built-in pool bootstrap,
    liquidity tokens against deposits, the peg nudge and the TIP-909 subsidy *)
@@ -376,11 +366,21 @@ Fixpoint reflect_steps (SO : stf_oracle) (pre : wstate) (i : N) (l : list sstep)
                          end) (i + 1) r
   end.
 
+(* C04: the signature covenants the wallet built with Covenant::std_ed25519_pk_new / _legacy decode to exactly
+   the op lists the theorems of STF/Proofs/StdCovenant.v are about *)
+Definition std_shape_ok (e : bool * (list N * list N)) : bool :=
+  let '(is_new, (pk, bytes)) := e in
+  match decode_all bytes with
+  | Some ops => list_eqb op_eqb ops (if is_new then std_ed25519_new pk else std_ed25519_legacy pk)
+  | None => false
+  end.
+
 Fixpoint reflect_scenarios (k : N) (l : list scenario) : list (N * N * N) :=
   match l with
   | [] => []
   | sc :: r =>
-    map (fun x => let '(i, p, d) := x in (k * 1000 + i, p, d))
+    (if forallb std_shape_ok (ot_std (sc_tables sc)) then [] else [(k * 1000, 4, 6)])
+    ++ map (fun x => let '(i, p, d) := x in (k * 1000 + i, p, d))
         (reflect_steps (mk_so (sc_tables sc)) (state_of (sc_init sc)) 0 (sc_steps sc))
     ++ reflect_scenarios (k + 1) r
   end.
